@@ -5,14 +5,15 @@
 Works in a scratch worktree /tmp/bconfirm-<tag>, removed at the end. Writes <dir>/confirm.json."""
 import json, os, subprocess, sys, re
 d = os.path.abspath(sys.argv[1]); tag = sys.argv[2]; nosuite = "--nosuite" in sys.argv
+rev = sys.argv[sys.argv.index("--rev") + 1] if "--rev" in sys.argv else "HEAD"  # seeds made before a later fix: commit are confirmed at the commit they were made against
 scr = "/tmp/bconfirm-" + tag
 env = dict(os.environ, GOFLAGS="-mod=mod", GOPROXY="off", GOSUMDB="off", GOTOOLCHAIN="local", GOWORK="off")
 def sh(cmd, cwd=None):
     p = subprocess.run(cmd, shell=True, cwd=cwd, env=env, stdout=subprocess.PIPE, stderr=subprocess.STDOUT, text=True)
     return p.returncode, p.stdout
 sh("git -C /repo worktree remove --force %s; rm -rf %s" % (scr, scr))
-rc, out = sh("git -C /repo worktree add -q --detach %s HEAD" % scr)
-res = {"dir": d, "repo_head": sh("git -C /repo rev-parse --short HEAD")[1].strip()}
+rc, out = sh("git -C /repo worktree add -q --detach %s %s" % (scr, rev))
+res = {"dir": d, "repo_head": sh("git -C /repo rev-parse --short %s" % rev)[1].strip()}
 try:
     demo = open(os.path.join(d, "demo_test.go")).read()
     pkg = re.search(r"^package (\w+)", demo, re.M).group(1)
